@@ -25,7 +25,7 @@ RULE = (
     " sets, spins {0,1/2,1} (thorough: one particle up to 5/2), each spinning final-state"
     " particle also massless, plus A->BC and four-body cascades for axis-angle; x"
     " alignments {none, aa, dpd1, dpd2, dpd3} (axis-angle only where the product of the"
-    " rotation-sum sizes is <= 27 quick / 125 thorough); 4 lattice events x polarisation basis; plus"
+    " rotation-sum sizes is <= 27 quick / 64 thorough); 4 lattice events x polarisation basis; plus"
     " create_spin_range(s, flag) for s = 0..5 step 1/2; non-trivial = reaction with >= 1"
     " spinning final-state particle (alignment is not the identity); distinct = distinct"
     " reaction"
@@ -103,7 +103,7 @@ def extra_aa_specs(tier):
 
 
 MAX_TRANSITIONS = {"quick": 40, "thorough": 150}
-MAX_AA_WEIGHT = {"quick": 27, "thorough": 125}
+MAX_AA_WEIGHT = {"quick": 27, "thorough": 64}
 
 
 def aa_weight(reaction) -> int:
